@@ -783,7 +783,11 @@ class CommandPipeline:
 
     def _close_prev_procs(self):
         """Closes all but the last proc's stdout."""
-        for s, p in zip(self.specs[:-1], self.procs[:-1], strict=False):
+        # If the pipeline failed to start (``self.proc is None``) the last
+        # entry of ``self.procs`` is not the pipeline's last stage but just
+        # another started upstream stage, and must be closed as well.
+        procs = self.procs if self.proc is None else self.procs[:-1]
+        for s, p in zip(self.specs[:-1], procs, strict=False):
             self._safe_close(s.stdin)
             self._safe_close(s.stderr)
             # Close read ends of connection pipes to unblock any blocked writes,
